@@ -28,6 +28,7 @@ from ..refs import fimo_ref as fr
 
 ID = "C12"
 LEVEL = "exploration"
+REPLAY_ENV = {"NUMBA_NUM_THREADS": "16"}
 RULE = ("one case = one fimo() scan (1-8 motifs of width 2-20, 1-6 sequences "
 	"of length 1-200 incl. shorter than / equal to the motif, consensus "
 	"planted at offsets incl. 0 and L-w, N runs, threshold 1e-1..1e-6, bin "
